@@ -480,6 +480,44 @@ def c13_tablerow_break(n: int, cols: int, bi: int, ki: int) -> bool:
     return finish(out == exp)
 
 
+# ---- LAX / WARN: a loop abandoned because its body raised leaves nothing behind: later loops see their own forloop only ----
+from liquid import Mode as _Mode, CachingDictLoader as _CDL  # noqa: E402
+
+_FAIL_P = {"inner": "{% for k in ys %}<{{ forloop.parentloop.index }}.{{ forloop.index }}>{% endfor %}"}
+_FAIL_ENVS = {m: Environment(tolerance=m, loader=_CDL(dict(_FAIL_P), auto_reload=False)) for m in (_Mode.LAX, _Mode.WARN)}
+_FAIL_SRC = [
+    "{% for i in xs %}{{ i | divided_by: 0 }}{% endfor %}{% for j in ys %}[{{ forloop.parentloop.index }}:{{ forloop.index }}/{{ forloop.length }}]{% endfor %}",
+    "{% for i in xs %}{% for j in ys %}{{ j | divided_by: 0 }}{% endfor %}{% endfor %}{% for j in ys %}[{{ forloop.parentloop.index }}{{ forloop.parentloop.parentloop.index }}:{{ forloop.index }}/{{ forloop.length }}]{% endfor %}",
+    "{% tablerow i in xs %}{{ i | divided_by: 0 }}{% endtablerow %}{% for j in ys %}[{{ forloop.parentloop.index }}:{{ forloop.index }}/{{ forloop.length }}]{% endfor %}",
+    "{% for i in xs %}{{ nosuch | nosuchfilter }}{% endfor %}{% for j in ys %}[{{ forloop.parentloop.index }}:{{ forloop.index }}/{{ forloop.length }}]{% endfor %}",
+    "{% for i in xs %}{% include 'nosuchpartial' %}{% endfor %}{% for j in ys %}[{{ forloop.parentloop.index }}:{{ forloop.index }}/{{ forloop.length }}]{% endfor %}",
+]
+_FAIL_T = {(m, k): e.from_string(src) for m, e in _FAIL_ENVS.items() for k, src in enumerate(_FAIL_SRC)}
+
+
+def after_failed_loop(k, n, m, warn):
+    import warnings
+    with warnings.catch_warnings():
+        warnings.simplefilter("ignore")
+        out = render(_FAIL_T[(_Mode.WARN if warn else _Mode.LAX, k)], xs=list(range(1, n + 1)), ys=list(range(m)))
+    exp = "".join("[:%d/%d]" % (j + 1, m) for j in range(m))
+    return out, exp
+
+
+def c13_for_after_failed_loop(k: int, n: int, m: int, warn: bool) -> bool:
+    """
+    pre: 0 <= k <= 4 and 0 <= n <= 2 and 0 <= m <= 2
+    post: _
+    """
+    if excluded("c13_for_after_failed_loop", locals()):
+        return True
+    k, n, m = cint(k, 0, 4), cint(n, 0, 2), cint(m, 0, 2)
+    warn = True if warn else False
+    out, exp = untraced(lambda: after_failed_loop(k, n, m, warn))
+    # whatever the abandoned loop wrote before it failed (a tablerow's opening row) comes first; the second loop's output is exact
+    return finish(out.endswith(exp) and "[" not in out[:len(out) - len(exp)])
+
+
 # ---- a loop with an else block, in every placement x every kind of body -----------------------------------------------
 # (the else block is rendered exactly when no item is visited, wherever the loop stands and whatever its body writes)
 W_SHAPES = ["%s", "{%% if true %%}%s{%% endif %%}", "{%% unless false %%}%s{%% endunless %%}", "{%% case 1 %%}{%% when 1 %%}%s{%% endcase %%}",
@@ -522,6 +560,8 @@ def c13_for_else_placement(w: int, bd: int, ls: int, n: int, limit: int, offset:
 
 
 DETAIL = globals().get("DETAIL", {})
+DETAIL["c13_for_after_failed_loop"] = lambda k, n, m, warn: {"source": _FAIL_SRC[k], "xs": list(range(1, n + 1)), "ys": list(range(m)), "mode": "WARN" if warn else "LAX",
+                                                              "observed_expected": after_failed_loop(k, n, m, warn)}
 DETAIL["c13_for_else_placement"] = lambda w, bd, ls, n, limit, offset: {"source": W_SHAPES[w] % (L_SHAPES[ls] % B_SHAPES[bd][0]) + "|{{ s }}", "xs": list(range(n)),
                                                                         "limit": limit, "offset": offset, "observed_expected": else_case(w, bd, ls, n, limit, offset)}
 
@@ -532,6 +572,7 @@ CONDITIONS = [
     {"fn": "c13_for_nil_args", "quick": 40, "thorough": 120},
     {"fn": "c13_for_plain", "quick": 30, "thorough": 60},
     {"fn": "c13_for_else_placement", "quick": 90, "thorough": 200, "sel_only": True},
+    {"fn": "c13_for_after_failed_loop", "quick": 40, "thorough": 80, "sel_only": True},
     {"fn": "c13_for_literal_args", "quick": 40, "thorough": 120},
     {"fn": "c13_for_string_args", "quick": 40, "thorough": 180},
     {"fn": "c13_for_break_continue", "quick": 60, "thorough": 240},
